@@ -160,7 +160,7 @@ def cases(r, quick):
 
 
 def run():
-    chk = Check("C07", gen_steps=(translators.gen_entropy,))
+    chk = Check("C07", props_modules=["GFO.Props.C07", "GFO.Gen.RngGenCheck"], gen_steps=(translators.gen_entropy, translators.gen_rng))
     chk.build_and_audit()
     r = C.rng("C07")
     quick = C.tier() != "thorough"
